@@ -47,17 +47,17 @@ func (*prop) AnchorFiles() []string {
 }
 
 type layout struct {
-	nA, nBomb, nAI, nB, nC, nD, nH int
+	nA, nBomb, nAI, nB, nC, nD, nH, nP int
 }
 
 func layoutFor(tier string) layout {
 	if tier == "thorough" {
 		return layout{nA: 10 * len(nameClasses), nBomb: 3, nAI: 4 * len(nameClasses),
 			nB: len(digestClasses) * len(verifierModes) * len(fetchScenarios), nC: 120,
-			nD: len(crashScenarios) * slicesFor(tier), nH: len(crashScenarios)}
+			nD: len(crashScenarios) * slicesFor(tier), nH: len(crashScenarios), nP: len(procCells)}
 	}
 	return layout{nA: 2 * len(nameClasses), nBomb: 2, nAI: len(nameClasses), nB: 100, nC: 16,
-		nD: quickCrashScenarios * slicesFor(tier), nH: quickCrashScenarios}
+		nD: quickCrashScenarios * slicesFor(tier), nH: quickCrashScenarios, nP: 3}
 }
 
 func slicesFor(tier string) int {
@@ -67,7 +67,7 @@ func slicesFor(tier string) int {
 	return 4
 }
 
-func (l layout) total() int { return l.nA + l.nBomb + l.nAI + l.nB + l.nC + l.nD + l.nH }
+func (l layout) total() int { return l.nA + l.nBomb + l.nAI + l.nB + l.nC + l.nD + l.nH + l.nP }
 
 func (*prop) NumCases(tier string) int { return layoutFor(tier).total() }
 
@@ -124,5 +124,9 @@ func (*prop) RunCase(seed int64, tier string, idx int) vp.CaseResult {
 		return runCrashCase(seed, tier, idx, k%nS, k/nS, slicesFor(tier))
 	}
 	k -= l.nD
-	return runHookCrashCase(seed, tier, idx, k)
+	if k < l.nH {
+		return runHookCrashCase(seed, tier, idx, k)
+	}
+	k -= l.nH
+	return runProcessorCase(seed, tier, idx, k)
 }
